@@ -8,6 +8,7 @@ import (
 	"encoding/json"
 	"fmt"
 	htmltemplate "html/template"
+	"io"
 	"sync"
 
 	"go.pennock.tech/tabular"
@@ -64,7 +65,7 @@ type C10Variant struct {
 	Path       string   `json:"path"`
 	Nest       []string `json:"nest,omitempty"`
 	BuildFirst bool     `json:"build_first"`   // build through the created object before nesting (else through the outermost wrapper)
-	Entry      int      `json:"entry"`         // 0 Wrap.Render 1 pkg Render 2 Wrap.RenderTo 3 auto.Render 4 pkg RenderTo 5 auto.RenderTo
+	Entry      int      `json:"entry"`         // 0 Wrap.Render 1 pkg Render 2 Wrap.RenderTo 3 auto.Render 4 pkg RenderTo 5 auto.RenderTo (2, 4, 5 into a *bytes.Buffer); 6, 7, 8 = 2, 4, 5 into a writer that is an io.Writer and nothing more
 	Pre        []string `json:"pre,omitempty"` // formats rendered (and discarded) from the same object before the target
 	// Poison: before anything else, renders of ANOTHER table fail in every format
 	// (json on an unencodable item; the others on a failing writer)
@@ -137,6 +138,9 @@ func c10AddFill(obj tabular.Table, how int) {
 		return
 	}
 	switch how {
+	case 4:
+		// registered through another table object (a helper's scratch table)
+		tabular.New().RegisterPropertyCallback(cell, tabular.CB_AT_RENDER, tabular.CB_ON_ITSELF, c10Fill{obj})
 	case 1:
 		obj.RegisterPropertyCallback(cell, tabular.CB_AT_RENDER, tabular.CB_ON_ITSELF, c10Fill{obj})
 	case 2:
@@ -169,6 +173,22 @@ type C10Spec struct {
 	// render-time callback of the application (on the cell at render time / on
 	// the table for every cell after the cell's own / on the row for its cells, post-cell)
 	Fill int `json:"fill,omitempty"`
+	// HdrMut: the header items are mutable Stringers; after the build (and, for
+	// variants that made the target's wrapper early, after one render through
+	// it) every header item gets a new text and its cell is updated in place
+	// (Headers()[i].Update()); what is compared is the render after that.
+	HdrMut bool `json:"hdr_mut,omitempty"`
+}
+
+// c10MutateHeader changes every mutable header item and updates its cell.
+func c10MutateHeader(t tabular.Table, objs map[[2]int]*objData) {
+	h := t.Headers()
+	for i := range h {
+		if od := objs[[2]int{-1, i}]; od != nil {
+			od.s = "new-" + od.s
+			h[i].Update()
+		}
+	}
 }
 
 func c10Style(sp C10Spec, alt bool) string {
@@ -201,8 +221,9 @@ func c10Render(sp C10Spec, v C10Variant) Outcome {
 			c10Poison()
 		}
 		obj := c10Create(v.Path)
+		var objs map[[2]int]*objData
 		if v.BuildFirst {
-			sp.Table.Build(obj)
+			objs = sp.Table.buildStaged(obj, nil)
 			if sp.Fill > 0 {
 				c10AddFill(obj, sp.Fill)
 			}
@@ -211,7 +232,7 @@ func c10Render(sp C10Spec, v C10Variant) Outcome {
 			obj = c10WrapKind(obj, k)
 		}
 		if !v.BuildFirst {
-			sp.Table.Build(obj)
+			objs = sp.Table.buildStaged(obj, nil)
 			if sp.Fill > 0 {
 				c10AddFill(obj, sp.Fill)
 			}
@@ -273,12 +294,75 @@ func c10Render(sp C10Spec, v C10Variant) Outcome {
 			}
 			return b.String(), nil
 		}
+		// a destination that is an io.Writer and nothing more
+		toPlain := func(f func(w io.Writer) error) (string, error) {
+			cw := &collectWriter{failAt: -1}
+			if err := f(cw); err != nil {
+				return "", err
+			}
+			return string(cw.acc), nil
+		}
+		if sp.HdrMut {
+			// the header changes in place between two renders of the same object
+			if early != nil {
+				capture(early.Render)
+			}
+			c10MutateHeader(obj, objs)
+		}
 		entry := v.Entry
 		if early != nil {
-			if entry%2 == 0 {
+			switch entry % 3 {
+			case 0:
 				return early.Render()
+			case 1:
+				return toBuf(func(w *bytes.Buffer) error { return early.RenderTo(w) })
 			}
-			return toBuf(func(w *bytes.Buffer) error { return early.RenderTo(w) })
+			return toPlain(func(w io.Writer) error { return early.RenderTo(w) })
+		}
+		if entry >= 6 {
+			// entries 6..8: entries 2, 4, 5 writing into a plain io.Writer
+			plainOf := map[int]int{6: 2, 7: 4, 8: 5}[entry]
+			if sp.Fmt == "html" && plainOf == 4 {
+				plainOf = 2
+			}
+			if sp.Fmt == "html" && sp.Decor == "gen" && plainOf == 5 {
+				plainOf = 2
+			}
+			if sp.Fmt == "text" && sp.Decor != "" && plainOf == 4 {
+				plainOf = 2
+			}
+			switch plainOf {
+			case 5:
+				return toPlain(func(w io.Writer) error { return auto.RenderTo(obj, w, c10Style(sp, len(v.Nest)%2 == 0)) })
+			case 4:
+				switch sp.Fmt {
+				case "csv":
+					return toPlain(func(w io.Writer) error { return csv.RenderTo(obj, w) })
+				case "json":
+					return toPlain(func(w io.Writer) error { return tjson.RenderTo(obj, w) })
+				case "markdown":
+					return toPlain(func(w io.Writer) error { return markdown.RenderTo(obj, w) })
+				default:
+					return toPlain(func(w io.Writer) error { return texttable.RenderTo(obj, w) })
+				}
+			}
+			switch sp.Fmt {
+			case "csv":
+				return toPlain(func(w io.Writer) error { return csv.Wrap(obj).RenderTo(w) })
+			case "html":
+				return toPlain(func(w io.Writer) error { return htmlWrap().RenderTo(w) })
+			case "json":
+				return toPlain(func(w io.Writer) error { return tjson.Wrap(obj).RenderTo(w) })
+			case "markdown":
+				return toPlain(func(w io.Writer) error { return markdown.Wrap(obj).RenderTo(w) })
+			}
+			return toPlain(func(w io.Writer) error {
+				tt := texttable.Wrap(obj)
+				if sp.Decor != "" {
+					tt.SetDecorationNamed(sp.Decor)
+				}
+				return tt.RenderTo(w)
+			})
 		}
 		if sp.Fmt == "html" && (entry == 1 || entry == 4) {
 			entry -= 1 // html has no package-level functions
@@ -361,7 +445,7 @@ func c10Variants(r *RNG, tier string) []C10Variant {
 	vs := []C10Variant{{Path: "core", BuildFirst: true, Entry: 0}} // the reference
 	n := 0
 	add := func(p string, nest []string) {
-		vs = append(vs, C10Variant{Path: p, Nest: nest, BuildFirst: n%3 != 0, Entry: n % 6})
+		vs = append(vs, C10Variant{Path: p, Nest: nest, BuildFirst: n%3 != 0, Entry: n % 9})
 		n++
 	}
 	for _, p := range c10Paths {
@@ -372,7 +456,7 @@ func c10Variants(r *RNG, tier string) []C10Variant {
 	}
 	// every entry point on three paths
 	for _, p := range []string{"core", "csv.New", "auto:utf8-light"} {
-		for e := 0; e < 6; e++ {
+		for e := 0; e < 9; e++ {
 			vs = append(vs, C10Variant{Path: p, BuildFirst: true, Entry: e})
 			vs = append(vs, C10Variant{Path: p, Nest: []string{"markdown", "json"}, BuildFirst: false, Entry: e})
 		}
@@ -432,7 +516,7 @@ func c10Variants(r *RNG, tier string) []C10Variant {
 }
 
 func c10Text(r *RNG) ItemSpec {
-	return Str(pick(r, []string{"a", "bb", "x y", "", "q\"r", "l1\nl2", "é", "<&>", "p|q", "1,2", "日本", "wide　x"}))
+	return Str(pick(r, []string{"a", "bb", "x y", "", "q\"r", "l1\nl2", "é", "<&>", "p|q", "1,2", "日本", "wide　x", "caf\xe9", "\xff\xfe b"}))
 }
 
 var c10Fmts = []struct{ f, d string }{{"csv", ""}, {"html", ""}, {"html", "gen"}, {"json", ""}, {"markdown", ""}, {"text", ""}, {"text", "ascii-simple"}, {"text", "Acme-Box"},
@@ -448,7 +532,8 @@ func init() {
 		ModelFn:  "C10_model2",
 		Rule: "for each table (fixed shapes + random) and each target format (csv, html, json, markdown, text default decoration, text ascii-simple) the same TableSpec is built and rendered along many paths: " +
 			"14 creation paths (tabular.New, the five sub-package New, auto.New of 8 style strings) x nestings of further wrappers (depth 0 and 1 exhaustively over the 5 kinds, deeper ones sampled) x building before or after nesting x other formats rendered from the same object first (each single format on every path, two mixed sequences) x 6 entry points " +
-			"(Wrap(t).Render, package Render, Wrap(t).RenderTo into a buffer, auto.Render, package RenderTo, auto.RenderTo; style strings in several spellings); the first variant is the reference (core table, the format's own Wrap(t).Render()); " +
+			"(Wrap(t).Render, package Render, Wrap(t).RenderTo into a buffer, auto.Render, package RenderTo, auto.RenderTo, and the three RenderTo forms into a writer that is an io.Writer and nothing more; style strings in several spellings); the first variant is the reference (core table, the format's own Wrap(t).Render()); " +
+			"17 / 40 / 130 wrappers or package-level renders of one measuring kind before the target; two decorations whose dotted names were used through auto before they were registered; cells with invalid UTF-8; a cell filled in by the application's render-time callback (registered on the cell, on the table, on the row, or through another table object; each variant on a fresh table); header items changed in place (Update) between two renders of the target's wrapper; " +
 			"a case is one (table, format) with all its variants; non-trivial when the reference render succeeds with non-empty output; distinct = distinct (format, reference output)",
 		Exhaustive: "creation paths x nesting depth <= 1 for every (table, format)",
 		Gen: func(r *RNG, tier string) []json.RawMessage {
@@ -470,6 +555,7 @@ func init() {
 				{Header: hdr("a", "b"), Rows: []RowSpec{row("1", "two"), {Sep: true}, row("x")}},
 				{Header: hdr("k", "v", "w"), Rows: []RowSpec{row("m\nl", "é", "3"), row("p", "q")}, Align: map[int]int{0: 2, 2: 3}, Skip: map[int]int{0: 1}},
 				{Header: nil, Rows: []RowSpec{row("n1", "n2")}},
+				{Header: hdr("n", "v\xe9"), Rows: []RowSpec{row("caf\xe9", "\xff"), row("ok", "b\x80c\"q")}}, // bytes that are not valid UTF-8
 			}
 			n := 2
 			if tier == "thorough" {
@@ -509,11 +595,34 @@ func init() {
 						vs = append(vs, v)
 					}
 				}
-				out = append(out, mustJSON(C10Spec{Table: tables[i%2], Fmt: fd.f, Decor: fd.d, Fill: 1 + i%3, Variants: vs}))
+				out = append(out, mustJSON(C10Spec{Table: tables[i%2], Fmt: fd.f, Decor: fd.d, Fill: 1 + i%4, Variants: vs}))
 				if fd.f == "text" || fd.f == "markdown" {
-					out = append(out, mustJSON(C10Spec{Table: tables[(i+1)%2], Fmt: fd.f, Decor: fd.d, Fill: 1 + (i+1)%3, Variants: vs}))
-					out = append(out, mustJSON(C10Spec{Table: tables[i%2], Fmt: fd.f, Decor: fd.d, Fill: 1 + (i+2)%3, Variants: vs}))
+					out = append(out, mustJSON(C10Spec{Table: tables[(i+1)%2], Fmt: fd.f, Decor: fd.d, Fill: 1 + (i+1)%4, Variants: vs}))
+					out = append(out, mustJSON(C10Spec{Table: tables[i%2], Fmt: fd.f, Decor: fd.d, Fill: 1 + (i+2)%4, Variants: vs}))
+					out = append(out, mustJSON(C10Spec{Table: tables[(i+1)%2], Fmt: fd.f, Decor: fd.d, Fill: 1 + (i+3)%4, Variants: vs}))
 				}
+			}
+			for _, f := range []string{"csv", "html", "json"} {
+				var vs []C10Variant
+				for _, v := range c10Variants(r, tier) {
+					if len(v.Pre) == 0 {
+						vs = append(vs, v)
+					}
+				}
+				out = append(out, mustJSON(C10Spec{Table: tables[0], Fmt: f, Fill: 4, Variants: vs}))
+			}
+			// headers changed in place between two renders of one wrapper
+			for i, fd := range c10Fmts {
+				if fd.d == "gen" || len(fd.d) > 12 {
+					continue
+				}
+				ts := tables[i%2]
+				h := make([]ItemSpec, len(*ts.Header))
+				for j := range h {
+					h[j] = ItemSpec{K: "obj", Mask: 1, S: []byte(fmt.Sprintf("hd%d", j))}
+				}
+				ts.Header = &h
+				out = append(out, mustJSON(C10Spec{Table: ts, Fmt: fd.f, Decor: fd.d, HdrMut: true, Variants: c10Variants(r, tier)}))
 			}
 			return out
 		},
@@ -523,7 +632,10 @@ func init() {
 				panic(err)
 			}
 			t := tabular.New()
-			sp.Table.Build(t)
+			objs := sp.Table.buildStaged(t, nil)
+			if sp.HdrMut {
+				c10MutateHeader(t, objs)
+			}
 			if sp.Fill > 0 {
 				c10AddFill(t, sp.Fill)
 				t.InvokeRenderCallbacks() // the view a renderer reads after the callbacks have run
@@ -585,24 +697,24 @@ func init() {
 			// keep the reference plus one variant at a time
 			if len(sp.Variants) > 2 {
 				for i := 1; i < len(sp.Variants); i++ {
-					out = append(out, mustJSON(C10Spec{Table: sp.Table, Fmt: sp.Fmt, Decor: sp.Decor, Fill: sp.Fill, Variants: []C10Variant{sp.Variants[0], sp.Variants[i]}}))
+					out = append(out, mustJSON(C10Spec{Table: sp.Table, Fmt: sp.Fmt, Decor: sp.Decor, Fill: sp.Fill, HdrMut: sp.HdrMut, Variants: []C10Variant{sp.Variants[0], sp.Variants[i]}}))
 				}
 				return out
 			}
 			for _, ts := range shrinkTable(sp.Table) {
-				out = append(out, mustJSON(C10Spec{Table: ts, Fmt: sp.Fmt, Decor: sp.Decor, Fill: sp.Fill, Variants: sp.Variants}))
+				out = append(out, mustJSON(C10Spec{Table: ts, Fmt: sp.Fmt, Decor: sp.Decor, Fill: sp.Fill, HdrMut: sp.HdrMut, Variants: sp.Variants}))
 			}
 			if len(sp.Variants) == 2 {
 				v := sp.Variants[1]
 				for i := range v.Nest {
 					v2 := v
 					v2.Nest = append(append([]string{}, v.Nest[:i]...), v.Nest[i+1:]...)
-					out = append(out, mustJSON(C10Spec{Table: sp.Table, Fmt: sp.Fmt, Decor: sp.Decor, Fill: sp.Fill, Variants: []C10Variant{sp.Variants[0], v2}}))
+					out = append(out, mustJSON(C10Spec{Table: sp.Table, Fmt: sp.Fmt, Decor: sp.Decor, Fill: sp.Fill, HdrMut: sp.HdrMut, Variants: []C10Variant{sp.Variants[0], v2}}))
 				}
 				for i := range v.Pre {
 					v2 := v
 					v2.Pre = append(append([]string{}, v.Pre[:i]...), v.Pre[i+1:]...)
-					out = append(out, mustJSON(C10Spec{Table: sp.Table, Fmt: sp.Fmt, Decor: sp.Decor, Fill: sp.Fill, Variants: []C10Variant{sp.Variants[0], v2}}))
+					out = append(out, mustJSON(C10Spec{Table: sp.Table, Fmt: sp.Fmt, Decor: sp.Decor, Fill: sp.Fill, HdrMut: sp.HdrMut, Variants: []C10Variant{sp.Variants[0], v2}}))
 				}
 			}
 			return out
